@@ -39,8 +39,15 @@ def algebra_cases(chk, H, n):
                 q = [x / nq for x in q]
                 kq = "unitq"
             v, kv = _rand_vec(rng, 3)
+            if i % 4 == 0:
+                # the vector as a user's JSON file may carry it: whole numbers written as integers (the arithmetic is the same)
+                v, kv = [rng.randint(-120, 120) for _ in range(3)], "integers"
             f = H.quat_trans if op == "trans" else H.quat_inv_trans
-            e = f(np.array(q), np.array(v))
+            try:
+                e = f(np.array(q), np.array(v))
+            except Exception as ex:
+                chk.violation("algebra:%s:raises" % op, dict(kind="algebra", op=op, q=q, v=v, error=repr(ex)))
+                continue
             cases.append("chk_%s %s %s %s" % (op, fq4(q), fv3(v), fv3(e)))
             descr.append(dict(op=op, q=q, v=v, kinds=[kq, kv]))
         elif op == "trans_arr":
